@@ -55,7 +55,7 @@ chk("C05", "exploration",
     "failure, keep-going completeness), never twice per run, redo-ood after failure. Second tier (rv/props/c05s.py): "
     "gated parallel scenarios, optionally with another invocation holding locks: exit status, failing script at most "
     "once per invocation, no new script from a redo process after one of its scripts failed and the system was "
-    "quiescent (unless keep-going), keep-going completeness.", H_NOTE + " " + "Parallel tier: see the S-engine note in C06. Parallel tier also: a redo-ifchange that is TOLD about a failure (target failed earlier in this run) must not start what it lists after it (directed shared-failing-leaf family).",
+    "quiescent (unless keep-going), keep-going completeness.", H_NOTE + " " + "Parallel tier: see the S-engine note in C06. Parallel tier also: a redo-ifchange that is TOLD about a failure (target failed earlier in this run) must not start what it lists after it (directed shared-failing-leaf family). Directed check-then-fail family (verified clean, force-rebuilt and failed, other dependent requested, all in one run).",
     "property-based testing: Hypothesis-generated failure histories vs reference model + schedule fuzzing with trace invariants", "DESIGN.md §4 C05, §10", "H+S")
 chk("C11", "exploration",
     "Generated histories mixing builds with manual create/edit/replace/remove of rule-matched names; bytes, inode and "
@@ -91,7 +91,7 @@ chk("C15", "exploration",
     "re-join and spelling-agreement in a tree with symlinked directories; end-to-end: 2-4 spellings of one target on one "
     "command line at -j1..4 must give one build and one canonical database row; contention tier (engine S): the same "
     "while another invocation holds the target's lock (its script at a gate) -- each file's script is started at most "
-    "once by the measured command. Coverage-guided: libFuzzer target `normpath` (400k / 8M executions).", P_NOTE,
+    "once by the measured command. Coverage-guided: libFuzzer target `normpath` (400k / 8M executions). A grand-parent script changes directory before redo-ifchange (names relative to that directory, out-of-band settle from there).", P_NOTE,
     "exhaustive enumeration + proptest + libFuzzer vs reference/kernel oracle + Hypothesis end-to-end cases and scheduled contention scenarios", "DESIGN.md §4 C15, §10.5", "P+H+S")
 chk("C18", "exploration",
     "In-process round trip through the real formatter and parser for generated (kind, pid, text); end-to-end: generated "
@@ -158,7 +158,7 @@ chk("C10", "fault_enumeration",
     "shim and a kill (caller or whole group) is injected immediately before each one (all points for 2 projects x 2 "
     "states and every 3rd elsewhere in quick; all points of 40 projects in thorough); recovery, further edit, "
     "rebuild and redo-ood are checked against from-scratch contents. Failures are classified by the semantic window "
-    "read off the post-crash state (W1/W2/W3).",
+    "read off the post-crash state (W1/W2/W3). Known-finding signatures carry the state of the database row (not-generated / generated+no-stamp / generated+old-stamp).",
     "Trusted: shim/verifshim.c (interposes rename/unlink/open*/creat/write/pwrite/writev/ftruncate/mkdir/link/symlink), "
     "deterministic call numbering at -j1 between counting run and crash runs, SIGKILL as the crash model (no power loss).",
     "fault injection: exhaustive crash-point enumeration via LD_PRELOAD, recovery vs from-scratch oracle", "DESIGN.md §4 C10", "K")
@@ -166,7 +166,7 @@ chk("C12", "exploration",
     "Generated graphs with a cycle of length 1-5, prefixes, siblings and second entries, every kind of entry set, "
     "-j1..4; must terminate non-zero with the cycle identified; hang only with proof. The known hanging shape (D8) is "
     "generated in ~8% of its natural share and counted as excluded otherwise. 40% of the cases build an acyclic "
-    "version first and close the cycle by a .do edit, with checksummed members (found D22).", S_NOTE,
+    "version first and close the cycle by a .do edit, with checksummed members (found D22). Flag flavour: the cycle is closed by an undeclared input and met only through the recorded graph when the closing member is forced.", S_NOTE,
     "schedule fuzzing over generated cyclic graphs, termination + status oracle", "DESIGN.md §4 C12", "S")
 chk("C16", "exploration",
     "2-10 commands (builds and queries) started within 0-20 ms on a fresh or pre-built project; exit statuses, SQLite "
